@@ -84,8 +84,7 @@ RULES = {
 }
 BENIGN = LOCAL + "Signal zben = ms + 1;"
 EMBEDDINGS = ["top", "func", "loop", "func-loop", "loop-loop"]
-KNOWN_ACCEPTED = {"bundle-from-int": "accepts-bundle-from-int", "zero-step-var": "accepts-zero-step-var",
-                  "second-write-via-loop": "accepts-second-write-via-loop"}
+KNOWN_ACCEPTED = {"second-write-via-loop": "accepts-second-write-via-loop"}
 
 
 def budget(tier):
